@@ -586,6 +586,11 @@ func execute(c *Case, snapshot bool) execResult {
 		if sp := lib.Recover(func() { o.State = fe.snapshot() }); sp != nil {
 			o.State = []string{"snapshot-panic:" + fmt.Sprint(sp)}
 		}
+		if inv != nil {
+			// the compiled record this Compile returned, in the model's terms (Corr/C20.v: snap_out)
+			o.State = append(o.State, runnerLines(inv.root)...)
+			sort.Strings(o.State)
+		}
 		if call.Op == "compile" && before != nil {
 			after := fe.pendingInputs()
 			for k, n := range before {
@@ -667,6 +672,30 @@ func execute(c *Case, snapshot bool) execResult {
 		}
 	}
 	return res
+}
+
+// runnerLines renders the runner behind a runnable (compose.VerifC09Project): node keys, control and
+// data edges, branches, trigger mode, eager flag, step limit.
+func runnerLines(root any) []string {
+	var g *compose.VerifC09Graph
+	if p := lib.Recover(func() { g = compose.VerifC09Project(root) }); p != nil || g == nil {
+		return []string{"runner-not-readable"}
+	}
+	var out []string
+	for _, n := range g.Nodes {
+		out = append(out, "rn:"+n.Key)
+	}
+	for _, p := range g.Ctrl {
+		out = append(out, "rc:"+p[0]+">"+p[1])
+	}
+	for _, p := range g.Data {
+		out = append(out, "rd:"+p[0]+">"+p[1])
+	}
+	for _, b := range g.Branches {
+		out = append(out, "rb:"+b.From+">"+strings.Join(b.Ends, ","))
+	}
+	out = append(out, "rg:"+flag(g.Dag, "dag", "pregel"), "re:"+flag(g.Eager, "eager", "batch"), fmt.Sprintf("rm:%d", g.MaxSteps))
+	return out
 }
 
 func firstDiff(a, b []string) string {
